@@ -36,6 +36,23 @@ def matrix():
     return '\n'.join(rows)
 
 
+def own():
+    p = os.path.join(HERE, 'build/seed_own.tsv')
+    if not os.path.exists(p):
+        return '(not run yet)'
+    m = {}
+    for l in open(p):
+        s, v = l.rstrip('\n').split('\t')
+        m[s] = v
+    sym = {'caught': '**X**', 'caught-nfif': 'x', 'quiet': '·', 'does-not-apply': 'n/a'}
+    rounds = ['', 'b', 'c', 'd', 'e']
+    rows = ['| property | round 1 | round 2 | round 3 | round 4 | round 5 |', '|---|---|---|---|---|---|']
+    for i in range(1, 21):
+        pid = 'C%02d' % i
+        rows.append('| %s | ' % pid + ' | '.join(sym.get(m.get(pid + r, ''), 'withdrawn' if (pid + r) in ('C01b', 'C14c') else ' ') for r in rounds) + ' |')
+    return '\n'.join(rows)
+
+
 def axioms():
     out = []
     for f in sorted(glob.glob(os.path.join(HERE, 'evidence/C*.json'))):
@@ -65,7 +82,7 @@ def perproperty():
 def main():
     p = os.path.join(HERE, 'DESIGN.md')
     s = open(p).read()
-    for name, fn in (('theorems', theorems), ('matrix', matrix), ('axioms', axioms), ('perproperty', perproperty)):
+    for name, fn in (('theorems', theorems), ('matrix', matrix), ('own', own), ('axioms', axioms), ('perproperty', perproperty)):
         s = re.sub(r'(<!-- BEGIN %s -->\n).*?(<!-- END %s -->)' % (name, name), lambda m, fn=fn: m.group(1) + fn() + '\n' + m.group(2), s, flags=re.S)
     open(p, 'w').write(s)
 
